@@ -7,10 +7,12 @@
    exact0 d : the stored (_days, _seconds, _microseconds) hold exactly d_N d (what Duration.__new__ gives without years / months while its
    float normalisation is exact: C09, |N| < 2^33 s);  exact_ym d : they hold d_N d minus the year / month days.
    same_length r t : Duration result r against the plain-timedelta result t of timedelta's own operator (td_binop) on the native values.
-   Float premises addsub_float_exact / mul_float_exact (below 2^31 s) and C09's float_split_exact_on_D9 are NOT proved: explicit arguments of *_partial. *)
+   Float premises addsub_float_exact / mul_float_exact (below 2^31 s) and C09's float_split_exact_on_D9 are explicit arguments of the *_partial
+   forms (which depend on no axiom); all three are THEOREMS (Proofs/FloatRoundTripC10.v, Proofs/FloatRoundTripC09.v, through Flocq) and the
+   unconditional forms are stated at the end of this file. *)
 From Coq Require Import ZArith List Bool.
 From Coq Require Import Floats.SpecFloat.
-From PV Require Import Lib.PyBase Spec.TdFloat Gen.Constants Model.Duration Gen.DurationOps Model.DurationOps Proofs.C09Facts Proofs.C10Facts Proofs.C10History Proofs.FloatRoundTripC09.
+From PV Require Import Lib.PyBase Spec.TdFloat Gen.Constants Model.Duration Gen.DurationOps Model.DurationOps Proofs.C09Facts Proofs.C10Facts Proofs.C10History Proofs.FloatRoundTripC09 Proofs.FloatRoundTripC10.
 Import ListNotations.
 Open Scope Z_scope.
 
@@ -392,3 +394,25 @@ Theorem chain_mod_then_div :
             /\ d_N r = d_N d mod n /\ exact0 r.
 Proof. exact (C10History.chain_mod_then_div float_split_exact_on_D9_proved). Qed.
 Print Assumptions chain_mod_then_div.
+
+(* ---- the float premises addsub_float_exact / mul_float_exact are THEOREMS as well (Proofs/FloatRoundTripC10.v: total_seconds is within half an
+   ulp = 2^-23 s below 2^31 s, resp. within 2^-53 relatively; the float sum / difference / product is below 2^32 s and rounds within 2^-22 s;
+   a finite double within 2^-21 s of R microseconds converts to exactly R, Proofs/FloatRoundTripNear.v): + - and int scaling are exact below
+   2^31 s unconditionally.  Print Assumptions lists the standard-library real-number axioms these rest on. *)
+Theorem add_exact : forall d o n2 r, native_len o = Some n2 ->
+  Z.abs (d_N d) < B31 -> Z.abs n2 < B31 -> Z.abs (d_N d + n2) < B31 ->
+  dur_add d o = Ok (RDur r) -> d_N r = d_N d + n2 /\ d_years r = 0 /\ d_months r = 0.
+Proof. exact (C10Facts.add_exact_partial addsub_float_exact_proved). Qed.
+Print Assumptions add_exact.
+
+Theorem sub_exact : forall d o n2 r, native_len o = Some n2 ->
+  Z.abs (d_N d) < B31 -> Z.abs n2 < B31 -> Z.abs (d_N d - n2) < B31 ->
+  dur_sub d o = Ok (RDur r) -> d_N r = d_N d - n2 /\ d_years r = 0 /\ d_months r = 0.
+Proof. exact (C10Facts.sub_exact_partial addsub_float_exact_proved). Qed.
+Print Assumptions sub_exact.
+
+Theorem mul_int_exact : forall d k r, d_years d = 0 -> d_months d = 0 -> d_total d = total_seconds (d_N d) ->
+  Z.abs (d_N d) < B31 -> Z.abs (k * d_N d) < B31 ->
+  dur_mul d (VInt k) = Ok (RDur r) -> d_N r = k * d_N d /\ d_years r = 0 /\ d_months r = 0.
+Proof. exact (C10Facts.mul_int_exact_partial mul_float_exact_proved). Qed.
+Print Assumptions mul_int_exact.
